@@ -81,8 +81,9 @@ impl StreamChunker {
         io_block_size: usize,
     ) -> Result<Chunk> {
         use std::io::Read;
-        // Can't do 0-byte I/O
-        let io_block_size = io_block_size.max(1);
+        // Can't do 0-byte I/O, and a block must have room for one fresh byte
+        // after the byte we may carry over from the previous block.
+        let io_block_size = io_block_size.max(2);
         while self.buf.slice().len() < 2 {
             let buf = self.buf.take();
 
